@@ -1,2 +1,7 @@
 import OlVerif.Props.C07
 #print axioms OlVerif.C07.chained_value_once
+#print axioms OlVerif.C07.assign_order
+#print axioms OlVerif.C07.annAssign_order
+#print axioms OlVerif.C07.augAssign_order
+#print axioms OlVerif.C07.expr_order
+#print axioms OlVerif.C07.functionDef_order
